@@ -376,7 +376,12 @@ func formatPostingWithOpts(posting *ast.Posting, alignment AlignmentInfo, commod
 	}
 
 	if posting.Comment != "" {
-		sb.WriteString("  ; ")
+		// The comment text starts right after the semicolon; it usually brings its
+		// own leading blank, which must not be written a second time.
+		sb.WriteString("  ;")
+		if !strings.HasPrefix(posting.Comment, " ") {
+			sb.WriteString(" ")
+		}
 		sb.WriteString(posting.Comment)
 	}
 
